@@ -5,7 +5,6 @@ From V.model Require Import Base RelLex RelParse RelAcc RelGrammar.
 From V.model Require Import RelEdit RelEditSpec RelEditTree RelLive.
 From V.proofs Require Import BaseP RelEditP RelEditStP RelEditHistP RelEditTreeP RelEditReplaceP RelEditParsedP RelGrammarAccP.
 From V.proofs Require Import RelLiveP RelLiveStepP RelLiveWfP RelLiveNormP RelLiveHistP.
-Set Default Timeout 60.
 
 (* ------------------------------------------------------------------ tree function -> abstract operation *)
 Theorem a_pop_tree o l l' : a_pop o l = Some l' -> tt_op (ptop o) (ltree l) = Ok (ltree l').
